@@ -371,6 +371,8 @@ Theorem C06_quiescent_serialisable_file_titled_refuted :
 Proof. exact file_titled_not_serialisable. Qed.
 Print Assumptions C06_quiescent_serialisable_file_titled_refuted.
 
+Example C06_ex_file_hyps : Forall untitled (concat fx_progs) /\ Forall no_alias (concat fx_progs).
+Proof. exact fx_hyps. Qed.
 Example C06_ex_file_quiescent : fquiescent (fconf_run true false false (fconf_init fx_progs) fx_sched) = true.
 Proof. exact fx_quiescent. Qed.
 
